@@ -565,9 +565,30 @@ func isContribution(as *ast.AssignStmt) bool {
 			if id, ok := call.Fun.(*ast.Ident); ok && id.Name == "append" {
 				return true
 			}
+			// loc, ocodes = helper(loc, ocodes, …): a helper that is handed both accumulators and
+			// returns both (rule P7 checks what the helper does with them)
+			if len(as.Lhs) == 2 && accumulatorHelperCall(as) {
+				return true
+			}
 		}
 	}
 	return false
+}
+
+// accumulatorHelperCall: `loc, ocodes = f(loc, ocodes, …)`.
+func accumulatorHelperCall(as *ast.AssignStmt) bool {
+	if len(as.Lhs) != 2 || len(as.Rhs) != 1 {
+		return false
+	}
+	call, ok := as.Rhs[0].(*ast.CallExpr)
+	if !ok || len(call.Args) < 2 {
+		return false
+	}
+	l0, ok0 := as.Lhs[0].(*ast.Ident)
+	l1, ok1 := as.Lhs[1].(*ast.Ident)
+	a0, ok2 := call.Args[0].(*ast.Ident)
+	a1, ok3 := call.Args[1].(*ast.Ident)
+	return ok0 && ok1 && ok2 && ok3 && l0.Name == "loc" && a0.Name == "loc" && l1.Name == a1.Name
 }
 
 func clauseName(info *types.Info, cc *ast.CaseClause) string {
